@@ -8,7 +8,7 @@ MANIFEST_ENTRY = dict(
     technique="TLC model checking of spec/MCWallet.tla (Fork/Restore/Scan/Diverge actions) + TLC-generated behaviours replayed on the real code and chain + TLC trace validation (spec/TraceWallet.tla) against the real chain's UTXO set",
     note=WALLET_NOTE)
 
-PARAMS = dict(quick_cfgs=['MC_C18_quick.cfg', 'MC_C18_selfq.cfg'], thorough_cfgs=['MC_C18.cfg', 'MC_C18_self.cfg', 'MC_C18_selfq.cfg'], quick_n=60, thorough_n=500, focus=['Reverted'],
+PARAMS = dict(quick_cfgs=['MC_C18_quick.cfg', 'MC_C18_selfq.cfg'], thorough_cfgs=['MC_C18.cfg', 'MC_C18_self.cfg', 'MC_C18_selfq.cfg'], quick_n=110, thorough_n=500, focus=['Reverted'],
               setup={"nfund": 1, "pad": 3, "fault_scans": 4}, assumptions=WALLET_ASSUME, extra_behaviours=[
     # directed: the recipient has TWO accounts whose logs both hold an entry with the same id (ids are per account);
     # the payment into the first one is confirmed, reorganised away, found reverted by a scan, mined again
